@@ -29,12 +29,36 @@ CHECKS = {
                 technique="deterministic simulation: invariant checked at every simulated broker operation"),
 }
 
+CHECKS.update({
+    "C05": dict(level="exploration",
+                text="Seeded search over schedules for generated successful Parallel/Map programs (differential against "
+                     "the reference model: positional results, request multiset) with barrier / exactly-once / "
+                     "MaxConcurrency monitors on the stream of history updates; plus the complete set of completion-order "
+                     "permutations for fan-out <= 4 x every MaxConcurrency (that slice is enumerated exhaustively).",
+                ref="5/C05", note=NOTE_BASE + "; reference interpreter model/asl.py.",
+                technique="deterministic simulation: seeded schedule exploration + enumerated completion orders, "
+                          "monitors and reference model"),
+    "C06": dict(level="exploration",
+                text="Seeded search over schedules and failure assignments for generated non-nested Parallel/Map "
+                     "programs with one, several or all failing branches; notification, sibling-silence, history-after-"
+                     "end, exactly-once-ack and drain monitors; outcome compared with the reference model's accept set.",
+                ref="5/C06", note=NOTE_BASE + ". Nested fan-out failures and Retry/Catch on the fan-out state itself "
+                                             "are outside the generated region (recorded findings, probe).",
+                technique="deterministic simulation: seeded fault (task failure) and schedule exploration with monitors"),
+    "C09": dict(level="exploration",
+                text="History well-formedness monitor validated incrementally after every scheduler step of generated "
+                     "executions (all state types, failures, retries, fan-out) under seeded schedules; end-of-run "
+                     "agreement with the record, the model's transitions and GetExecutionHistory in both orders.",
+                ref="5/C09", note=NOTE_BASE + "; reference interpreter for the expected transitions.",
+                technique="deterministic simulation: history invariant monitor on every simulated step"),
+})
+
 NA = [
     ("C12", "pure functions of (document, path, result): no schedule, clock, fault or interleaving to simulate"),
     ("C13", "pure function of (template, input, context): no schedule, clock, fault or interleaving to simulate"),
     ("C14", "pure function of (rule tree, input): no schedule, clock, fault or interleaving to simulate"),
 ]
-NOT_YET = {'C04': 'check not built yet (in progress)', 'C05': 'check not built yet (in progress)', 'C06': 'check not built yet (in progress)', 'C07': 'check not built yet (in progress)', 'C08': 'check not built yet (in progress)', 'C09': 'check not built yet (in progress)', 'C10': 'check not built yet (in progress)', 'C11': 'check not built yet (in progress)', 'C15': 'check not built yet (in progress)', 'C16': 'check not built yet (in progress)', 'C17': 'check not built yet (in progress)', 'C18': 'check not built yet (in progress)', 'C19': 'check not built yet (in progress)', 'C20': 'check not built yet (in progress)'}
+NOT_YET = {'C04': 'check not built yet (in progress)', 'C07': 'check not built yet (in progress)', 'C08': 'check not built yet (in progress)', 'C10': 'check not built yet (in progress)', 'C11': 'check not built yet (in progress)', 'C15': 'check not built yet (in progress)', 'C16': 'check not built yet (in progress)', 'C17': 'check not built yet (in progress)', 'C18': 'check not built yet (in progress)', 'C19': 'check not built yet (in progress)', 'C20': 'check not built yet (in progress)'}
 
 FIX_COMMITS = []
 
